@@ -369,6 +369,19 @@ static void write_all(int fd, const void *p, size_t n)
     }
 }
 
+// On a sanitizer abort the child still tells the parent what the case was.
+extern "C" void __sanitizer_set_death_callback(void (*)(void));
+static Case *g_iso_case;
+static int g_iso_fd = -1;
+static void iso_on_death()
+{
+    if (g_iso_case && g_iso_fd >= 0)
+    {
+        write_all(g_iso_fd, "D", 1);
+        write_all(g_iso_fd, g_iso_case->desc.data(), g_iso_case->desc.size());
+    }
+}
+
 static Outcome run_isolated(const Opts &o, const Target &t, bool is_enum,
                             uint64_t k, const std::vector<uint8_t> &bytes,
                             double timeout_s)
@@ -386,6 +399,9 @@ static Outcome run_isolated(const Opts &o, const Target &t, bool is_enum,
         redirect_stderr(errpath);
         Case c;
         RunResult r;
+        g_iso_case = &c;
+        g_iso_fd = pfd[1];
+        __sanitizer_set_death_callback(iso_on_death);
         if (is_enum)
         {
             Src s((unsigned __int128)k);
@@ -458,6 +474,8 @@ static Outcome run_isolated(const Opts &o, const Target &t, bool is_enum,
             out.verdict = 3;
             out.sig = signature_from_stderr(err, status);
             out.msg = err.substr(0, 3000);
+            if (!payload.empty() && payload[0] == 'D')
+                out.desc = payload.substr(1);
         }
     }
     unlink(errpath.c_str());
